@@ -40,11 +40,11 @@ def direct_model(table, lang, any_lang, in0):
     seq, seen, flags, cur = [], [], 0, in0
     out = in0                        # notify starts with out_data = in_data
     none_ambiguous = False
-    for idx, (langs, ret, transform, out_obj) in enumerate(table):
+    for idx, (langs, ret, transform, out_obj, ident) in enumerate(table):
         ls = [langs] if isinstance(langs, str) else list(langs)
         if not (lang in ls or any_lang in ls):
             continue
-        seq.append(idx)
+        seq.append(ident)            # a callable registered twice runs once per registration, at each position
         seen.append(None if none_ambiguous else cur)
         if transform:
             out = out_obj
@@ -85,10 +85,24 @@ def judge_config(cfg, event, decoy_event, stats, any_lang, fails, distinct):
         return S | STOP
     mgr.register(decoy_event, decoy, [any_lang])
     mgr.register(987654, decoy, [any_lang])       # unknown event kind: must be ignored
+    handlers = []
     for idx, (ln, lv, ret, tr) in enumerate(cfg):
-        out_obj = types.SimpleNamespace(tag=idx)
-        mgr.register(event, mk_handler(idx, ret, tr, out_obj), lv)
-        table.append((lv, ret, tr, out_obj))
+        if ln.startswith("dup") and idx > 0:
+            # the SAME callable as an earlier registration, registered again with an equal (but distinct) language list
+            j = int(ln[3:]) % idx
+            lv_j, ret_j, tr_j, out_j, ident_j = table[j]
+            lv2 = lv_j if isinstance(lv_j, str) else type(lv_j)(lv_j)
+            mgr.register(event, handlers[j], lv2)
+            handlers.append(handlers[j])
+            table.append((lv2, ret_j, tr_j, out_j, ident_j))
+        else:
+            if ln.startswith("dup"):
+                lv, ret, tr = [L], S, False
+            out_obj = types.SimpleNamespace(tag=idx)
+            h = mk_handler(idx, ret, tr, out_obj)
+            handlers.append(h)
+            mgr.register(event, h, lv)
+            table.append((lv, ret, tr, out_obj, idx))
         for lang in (L, OTHER):
             in0 = types.SimpleNamespace(tag="in")
             data = EventData(lang, event, in0)
@@ -134,6 +148,7 @@ def enum_job(job):
     if mode != "full":
         langs = langs[:3]
     opts = [(ln, lv, r, t) for (ln, lv) in langs for r in rets for t in (False, True)]
+    opts += [("dup0", None, None, None), ("dup1", None, None, None)]
     fails, n_cfg, n_notify = [], 0, 0
     distinct = set()
     first_opts = opts[part::nparts]
@@ -156,7 +171,7 @@ def replay_job(path):
         case = json.load(f)["case"]
     stats = evmon.install()
     lo = dict(lang_options(any_lang))
-    cfg = tuple((ln, lo[ln], r, t) for ln, r, t in case["handlers"])
+    cfg = tuple((ln, lo.get(ln), r, t) for ln, r, t in case["handlers"])
     fails, distinct = [], set()
     n = judge_config(cfg, case["event"], case.get("decoy_event", case["event"] + 1), stats, any_lang, fails, distinct)
     return n, fails
